@@ -9,6 +9,7 @@ import Rl.Editor
 import Rl.Spec.OracleNav
 import Rl.Lemmas.EditorM
 import Rl.Lemmas.EditorOps
+import Rl.Lemmas.RowStore
 open Rl Rl.Spec
 
 /-- Spec: moving up from entry `i+1` shows entry `i` exactly as stored, cursor at its end. -/
@@ -786,11 +787,10 @@ def absNav (r : RowStore) (n : Nav) : Nav := { n with idx := posOf r n.idx }
 /-- the indices the recall commands can be at: `len` (the line being typed) or a stored row -/
 def ValidIdx (r : RowStore) (i : Nat) : Prop := i = r.len ∨ i ∈ r.idx
 
-/-- **Holes are invisible** (stated; the refinement to the store machine is proved above, the
-    simulation of the position machine by the store machine over a well-formed non-empty row store is
-    checked on concrete stores below and by target `ed07s`, not yet proved in general): seen through
-    `absNav`, each step of the store machine over the rows is the step of the default machine over
-    the entries in row order, and it stays on a valid index. -/
+/-- **Holes are invisible** (proved below as `C07_rows_simulation`; the refinement of the editor to
+    the store machine is proved above, so the two compose: `C07_prev_refines_rows` …): seen through
+    `absNav`, each step of the store machine over a well-formed non-empty row store is the step of
+    the default machine over the entries in row order, and it stays on a valid index. -/
 def C07_rows_simulation_statement : Prop :=
   ∀ (cfg : EdCfg) (r : RowStore) (n : Nav),
     cfg.histRows = some r → RowsWF r cfg.hist → r.idx ≠ [] → ValidIdx r n.idx →
@@ -825,3 +825,523 @@ example :
     row 2, the entry already shown — Up from "3" would stay on "3" -/
 example : histGetDir C07_exCfg 1 .forward = some (2, ['3']) ∧ histGetDir C07_exCfg 1 .reverse = some (0, ['1']) := by
   decide
+
+
+/-! ### holes are invisible: the proof -/
+
+/-- the in-progress position has all rows below it -/
+theorem C07_posOf_len {r : RowStore} {hist : List Text} (wf : RowsWF r hist) : posOf r r.len = hist.length := by
+  rw [← wf.len_eq]; exact Rows.count_lt_of_bound wf.bound
+
+/-- a valid index is `len` (position = number of entries) or the index of the row at its position -/
+theorem C07_valid_cases {r : RowStore} {hist : List Text} (wf : RowsWF r hist) {i : Nat} (hv : ValidIdx r i) :
+    (i = r.len ∧ posOf r i = hist.length) ∨
+    (i < r.len ∧ posOf r i < hist.length ∧ r.idx[posOf r i]? = some i) := by
+  rcases hv with he | hm
+  · left; exact ⟨he, by rw [he]; exact C07_posOf_len wf⟩
+  · right
+    obtain ⟨k, hk0, hk⟩ := List.getElem_of_mem hm
+    subst hk
+    have hp : posOf r r.idx[k] = k := Rows.count_lt_getElem wf.sorted k hk0
+    refine ⟨wf.bound _ hm, by rw [hp, ← wf.len_eq]; exact hk0, ?_⟩
+    rw [hp]; exact List.getElem?_eq_getElem hk0
+
+/-- positions identify valid indices -/
+theorem C07_posOf_inj {r : RowStore} {hist : List Text} (wf : RowsWF r hist) {i j : Nat}
+    (hi : ValidIdx r i) (hj : ValidIdx r j) (h : posOf r i = posOf r j) : i = j := by
+  rcases C07_valid_cases wf hi with ⟨a1, a2⟩ | ⟨a1, a2, a3⟩ <;>
+    rcases C07_valid_cases wf hj with ⟨b1, b2⟩ | ⟨b1, b2, b3⟩
+  · rw [a1, b1]
+  · omega
+  · omega
+  · rw [h, b3] at a3; exact (Option.some.inj a3).symm
+
+/-- the user's view identifies navigation states on valid indices -/
+theorem C07_absNav_inj {r : RowStore} {hist : List Text} (wf : RowsWF r hist) {a b : Nav}
+    (ha : ValidIdx r a.idx) (hb : ValidIdx r b.idx) (h : absNav r a = absNav r b) : a = b := by
+  obtain ⟨a1, a2, a3, a4, a5⟩ := a
+  obtain ⟨b1, b2, b3, b4, b5⟩ := b
+  simp only [absNav, Nav.mk.injEq] at h
+  obtain ⟨h1, h2, h3, h4, h5⟩ := h
+  have := C07_posOf_inj wf ha hb h3
+  simp only at this
+  subst h1 h2 h4 h5 this
+  rfl
+
+theorem C07_rows_simulation : C07_rows_simulation_statement := by
+  intro cfg r n hr wf hne hv
+  obtain ⟨hlenEq, hsorted, hbound, htight⟩ := wf
+  have hm0 : 0 < cfg.hist.length := by
+    have := List.length_pos_iff.mpr hne
+    omega
+  have hL : (storeOf cfg).len = r.len := Rows.histLen_rows cfg r hr
+  have hlast : r.len = r.idx[cfg.hist.length - 1]'(by omega) + 1 := by
+    apply htight
+    rw [List.getLast?_eq_getElem?, List.getElem?_eq_getElem (by omega)]
+    simp only [hlenEq]
+  have hl0 : r.len ≠ 0 := by omega
+  have hF : ∀ i, (storeOf cfg).get i .forward = (r.idx.zip cfg.hist)[posOf r i]? :=
+    fun i => Rows.histGetDir_forward_rows cfg r hr hsorted hl0 i
+  have hR : ∀ i, (storeOf cfg).get i .reverse =
+      if posOf r (i + 1) = 0 then none else (r.idx.zip cfg.hist)[posOf r (i + 1) - 1]? :=
+    fun i => Rows.histGetDir_reverse_rows cfg r hr hsorted hlenEq hl0 i
+  have hZ : ∀ k (hk : k < cfg.hist.length),
+      (r.idx.zip cfg.hist)[k]? = some (r.idx[k]'(by omega), cfg.hist[k]) :=
+    fun k hk => Rows.zip_getElem? r.idx cfg.hist k (by omega) hk
+  have hP : ∀ k (hk : k < cfg.hist.length), posOf r (r.idx[k]'(by omega)) = k :=
+    fun k hk => Rows.count_lt_getElem hsorted k (by omega)
+  have hP1 : ∀ k (hk : k < cfg.hist.length), posOf r (r.idx[k]'(by omega) + 1) = k + 1 :=
+    fun k hk => Rows.count_lt_getElem_succ hsorted k (by omega)
+  have hPlen : posOf r r.len = cfg.hist.length := by
+    rw [← hlenEq]; exact Rows.count_lt_of_bound hbound
+  have hP0 : posOf r 0 = 0 := Rows.count_lt_zero r.idx
+  rcases hv with he | hmemn
+  · -- on the line being typed
+    have hmm : cfg.hist.length - 1 < cfg.hist.length := by omega
+    have hs1 : r.len - 1 + 1 = r.len := by omega
+    have hpm0 : ¬ cfg.hist.length = 0 := by omega
+    have hlt1 : r.len - 1 < r.len := by omega
+    have hne0 : ¬ n.idx = 0 := by omega
+    refine ⟨?_, ?_, ?_, ?_⟩
+    · have e1 : navPrevS (storeOf cfg) n =
+          { buf := cfg.hist[cfg.hist.length - 1], pos := blen cfg.hist[cfg.hist.length - 1],
+            idx := r.idx[cfg.hist.length - 1]'(by omega), savedBuf := n.buf, savedPos := n.pos } := by
+        simp [navPrevS, navSave, hL, hl0, he, hR, hs1, hPlen, hpm0, hlt1, hZ _ hmm]
+      rw [e1]
+      refine ⟨?_, Or.inr (List.getElem_mem _)⟩
+      have hge : cfg.hist[cfg.hist.length - 1]? = some cfg.hist[cfg.hist.length - 1] := List.getElem?_eq_getElem hmm
+      simp [absNav, navPrev, he, hPlen, hpm0, hP _ hmm, hge]
+    · refine ⟨?_, Or.inl ?_⟩ <;> simp [navNextS, navNext, absNav, hL, he, hPlen]
+    · have h00 : 0 < cfg.hist.length := hm0
+      have hne1 : ¬ r.idx[0]'(by omega) = r.len := by
+        have := hbound (r.idx[0]'(by omega)) (List.getElem_mem _); omega
+      have e1 : navFirstS (storeOf cfg) n =
+          { buf := cfg.hist[0], pos := blen cfg.hist[0],
+            idx := r.idx[0]'(by omega), savedBuf := n.buf, savedPos := n.pos } := by
+        simp [navFirstS, navSave, hL, hl0, he, hF, hP0, hZ _ h00, hne1]
+      rw [e1]
+      refine ⟨?_, Or.inr (List.getElem_mem _)⟩
+      have hge : cfg.hist[0]? = some cfg.hist[0] := List.getElem?_eq_getElem h00
+      simp [absNav, navFirst, he, hPlen, hpm0, hP _ h00, hge]
+    · refine ⟨?_, Or.inl ?_⟩ <;> simp [navLastS, navLast, absNav, hL, he, hPlen]
+  · -- on a stored row: the `k`-th
+    obtain ⟨k, hk0, hk⟩ := List.getElem_of_mem hmemn
+    have hkm : k < cfg.hist.length := by omega
+    have hpk : posOf r n.idx = k := by rw [← hk]; exact hP k hkm
+    have hlt : n.idx < r.len := hbound _ hmemn
+    have hne : ¬ n.idx = r.len := by omega
+    have hnk : ¬ k = cfg.hist.length := by omega
+    refine ⟨?_, ?_, ?_, ?_⟩
+    · by_cases h0 : n.idx = 0
+      · refine ⟨?_, Or.inr ?_⟩
+        · simp [navPrevS, navPrev, absNav, hL, hl0, h0, hP0]
+        · simp only [navPrevS, hL, hl0, h0, if_true, if_false]; rw [← h0]; exact hmemn
+      · have hs1 : n.idx - 1 + 1 = n.idx := by omega
+        have hlt1 : n.idx - 1 < r.len := by omega
+        by_cases hk0' : k = 0
+        · have e1 : navPrevS (storeOf cfg) n = n := by
+            simp [navPrevS, navSave, hL, hl0, h0, hlt1, hR, hs1, hpk, hk0', hne]
+          rw [e1]
+          refine ⟨?_, Or.inr hmemn⟩
+          simp [absNav, navPrev, hpk, hk0']
+        · have hk1 : k - 1 < cfg.hist.length := by omega
+          have e1 : navPrevS (storeOf cfg) n =
+              { n with buf := cfg.hist[k - 1], pos := blen cfg.hist[k - 1], idx := r.idx[k - 1]'(by omega) } := by
+            simp [navPrevS, navSave, hL, hl0, h0, hlt1, hR, hs1, hpk, hk0', hne, hZ _ hk1]
+          rw [e1]
+          refine ⟨?_, Or.inr (List.getElem_mem _)⟩
+          have hge : cfg.hist[k - 1]? = some cfg.hist[k - 1] := List.getElem?_eq_getElem hk1
+          simp [absNav, navPrev, hpk, hk0', hP _ hk1, hge, hnk]
+    · have hpk1 : posOf r (n.idx + 1) = k + 1 := by rw [← hk]; exact hP1 k hkm
+      by_cases h1 : n.idx + 1 < r.len
+      · have hk1 : k + 1 < cfg.hist.length := by
+          have := Rows.sorted_le hsorted (i := cfg.hist.length - 1) (j := k) (by omega) hk0
+          omega
+        have e1 : navNextS (storeOf cfg) n =
+            { n with buf := cfg.hist[k + 1], pos := blen cfg.hist[k + 1], idx := r.idx[k + 1]'(by omega) } := by
+          simp [navNextS, hL, hl0, hne, h1, hF, hpk1, hZ _ hk1]
+        rw [e1]
+        refine ⟨?_, Or.inr (List.getElem_mem _)⟩
+        have hge : cfg.hist[k + 1]? = some cfg.hist[k + 1] := List.getElem?_eq_getElem hk1
+        have hnle : ¬ cfg.hist.length ≤ k := by omega
+        simp [absNav, navNext, hpk, hP _ hk1, hge, hnle]
+      · have hk1 : k + 1 = cfg.hist.length := by
+          by_cases hh : k < cfg.hist.length - 1
+          · have := Rows.sorted_lt hsorted (i := k) (j := cfg.hist.length - 1) hk0 (by omega) hh
+            omega
+          · omega
+        have e1 : navNextS (storeOf cfg) n =
+            { n with buf := n.savedBuf, pos := n.savedPos, idx := n.idx + 1 } := by
+          simp [navNextS, hL, hl0, hne, h1]
+        rw [e1]
+        refine ⟨?_, Or.inl (by simp only []; omega)⟩
+        have hnle : ¬ cfg.hist.length ≤ k := by omega
+        simp [absNav, navNext, hpk, hpk1, hnle, hk1]
+    · by_cases h0 : n.idx = 0
+      · refine ⟨?_, Or.inr ?_⟩
+        · simp [navFirstS, navFirst, absNav, hL, hl0, h0, hP0]
+        · simp only [navFirstS, hL, hl0, h0, if_true, if_false]; rw [← h0]; exact hmemn
+      · have h00 : 0 < cfg.hist.length := hm0
+        by_cases hj : r.idx[0]'(by omega) = n.idx
+        · have hk0' : k = 0 := Rows.sorted_inj hsorted hk0 (by omega) (by rw [hk, hj])
+          have e1 : navFirstS (storeOf cfg) n = n := by
+            simp [navFirstS, navSave, hL, hl0, h0, hF, hP0, hZ _ h00, hj, hne]
+          rw [e1]
+          refine ⟨?_, Or.inr hmemn⟩
+          simp [absNav, navFirst, hpk, hk0']
+        · have hk0' : ¬ k = 0 := by
+            intro hkz; subst hkz; exact hj hk
+          have e1 : navFirstS (storeOf cfg) n =
+              { n with buf := cfg.hist[0], pos := blen cfg.hist[0], idx := r.idx[0]'(by omega) } := by
+            simp [navFirstS, navSave, hL, hl0, h0, hF, hP0, hZ _ h00, hj, hne]
+          rw [e1]
+          refine ⟨?_, Or.inr (List.getElem_mem _)⟩
+          have hge : cfg.hist[0]? = some cfg.hist[0] := List.getElem?_eq_getElem h00
+          simp [absNav, navFirst, hpk, hk0', hP _ h00, hge, hnk]
+    · refine ⟨?_, Or.inl ?_⟩ <;> simp [navLastS, navLast, absNav, hL, hl0, hne, hPlen, hpk]
+      omega
+
+/-! ### corollaries over a store with holes, transported through the simulation -/
+
+/-- the SQLite back end as the theorems below see it: the row store of `cfg`, well formed, non-empty -/
+structure RowsView (cfg : EdCfg) (r : RowStore) : Prop where
+  rows : cfg.histRows = some r
+  wf : RowsWF r cfg.hist
+  nonempty : r.idx ≠ []
+
+theorem C07_rows_prev_sim {cfg : EdCfg} {r : RowStore} (v : RowsView cfg r) (n : Nav) (hv : ValidIdx r n.idx) :
+    absNav r (navPrevS (storeOf cfg) n) = navPrev cfg.hist (absNav r n) ∧
+      ValidIdx r (navPrevS (storeOf cfg) n).idx :=
+  (C07_rows_simulation cfg r n v.rows v.wf v.nonempty hv).1
+
+theorem C07_rows_next_sim {cfg : EdCfg} {r : RowStore} (v : RowsView cfg r) (n : Nav) (hv : ValidIdx r n.idx) :
+    absNav r (navNextS (storeOf cfg) n) = navNext cfg.hist (absNav r n) ∧
+      ValidIdx r (navNextS (storeOf cfg) n).idx :=
+  (C07_rows_simulation cfg r n v.rows v.wf v.nonempty hv).2.1
+
+theorem C07_rows_first_sim {cfg : EdCfg} {r : RowStore} (v : RowsView cfg r) (n : Nav) (hv : ValidIdx r n.idx) :
+    absNav r (navFirstS (storeOf cfg) n) = navFirst cfg.hist (absNav r n) ∧
+      ValidIdx r (navFirstS (storeOf cfg) n).idx :=
+  (C07_rows_simulation cfg r n v.rows v.wf v.nonempty hv).2.2.1
+
+theorem C07_rows_last_sim {cfg : EdCfg} {r : RowStore} (v : RowsView cfg r) (n : Nav) (hv : ValidIdx r n.idx) :
+    absNav r (navLastS (storeOf cfg) n) = navLast cfg.hist (absNav r n) ∧
+      ValidIdx r (navLastS (storeOf cfg) n).idx :=
+  (C07_rows_simulation cfg r n v.rows v.wf v.nonempty hv).2.2.2
+
+/-- a simulation of single steps is a simulation of `k` steps -/
+theorem C07_navIter_sim (abs : Nav → Nav) (V : Nav → Prop) (f g : Nav → Nav)
+    (h : ∀ n, V n → abs (f n) = g (abs n) ∧ V (f n)) :
+    ∀ (k : Nat) (n : Nav), V n → abs (navIter f k n) = navIter g k (abs n) ∧ V (navIter f k n) := by
+  intro k
+  induction k with
+  | zero => intro n hn; exact ⟨rfl, hn⟩
+  | succ k ih =>
+    intro n hn
+    obtain ⟨h1, h2⟩ := h n hn
+    obtain ⟨h3, h4⟩ := ih (f n) h2
+    exact ⟨by rw [navIter, h3, h1, navIter], by rw [navIter]; exact h4⟩
+
+/-- the store machine with edits of a recalled entry (the counterpart of `navApply`) -/
+def navApplyS (H : HStore) (n : Nav) : NavOp → Nav
+  | .prev => navPrevS H n
+  | .next => navNextS H n
+  | .first => navFirstS H n
+  | .last => navLastS H n
+  | .edit b p => if n.idx < H.len then { n with buf := b, pos := p } else n
+
+/-- one step of any kind, seen through positions -/
+theorem C07_rows_apply_sim {cfg : EdCfg} {r : RowStore} (v : RowsView cfg r) (n : Nav)
+    (hv : ValidIdx r n.idx) (op : NavOp) :
+    absNav r (navApplyS (storeOf cfg) n op) = navApply cfg.hist (absNav r n) op ∧
+      ValidIdx r (navApplyS (storeOf cfg) n op).idx := by
+  cases op with
+  | prev => exact C07_rows_prev_sim v n hv
+  | next => exact C07_rows_next_sim v n hv
+  | first => exact C07_rows_first_sim v n hv
+  | last => exact C07_rows_last_sim v n hv
+  | edit b p =>
+    have hL : (storeOf cfg).len = r.len := Rows.histLen_rows cfg r v.rows
+    simp only [navApplyS, navApply, hL]
+    rcases C07_valid_cases v.wf hv with ⟨a1, a2⟩ | ⟨a1, a2, _⟩
+    · have h1 : ¬ n.idx < r.len := by omega
+      have h2 : ¬ (absNav r n).idx < cfg.hist.length := by simp only [absNav]; omega
+      rw [if_neg h1, if_neg h2]; exact ⟨rfl, hv⟩
+    · have h2 : (absNav r n).idx < cfg.hist.length := by simp only [absNav]; exact a2
+      rw [if_pos a1, if_pos h2]; exact ⟨rfl, hv⟩
+
+/-- any sequence of steps, seen through positions, is the same sequence on the hole-free machine -/
+theorem C07_rows_fold_sim {cfg : EdCfg} {r : RowStore} (v : RowsView cfg r) (ops : List NavOp) :
+    ∀ (n : Nav), ValidIdx r n.idx →
+      absNav r (ops.foldl (navApplyS (storeOf cfg)) n) = ops.foldl (navApply cfg.hist) (absNav r n) ∧
+      ValidIdx r (ops.foldl (navApplyS (storeOf cfg)) n).idx := by
+  induction ops with
+  | nil => intro n hn; exact ⟨rfl, hn⟩
+  | cons op rest ih =>
+    intro n hn
+    obtain ⟨h1, h2⟩ := C07_rows_apply_sim v n hn op
+    obtain ⟨h3, h4⟩ := ih _ h2
+    simp only [List.foldl_cons]
+    exact ⟨by rw [h3, h1], h4⟩
+
+/-- hole-free machine: `k` Ups from the line being typed show the `k`-th newest entry, cursor at its
+    end, with the line being typed (text and cursor) saved -/
+theorem C07_prev_iterate (hist : List Text) (n : Nav) (h0 : n.idx = hist.length) :
+    ∀ (k : Nat) (e : Text), 0 < k → k ≤ hist.length → hist[hist.length - k]? = some e →
+      navIter (navPrev hist) k n = ⟨e, blen e, hist.length - k, n.buf, n.pos⟩ := by
+  have hsucc : ∀ (f : Nav → Nav) (k : Nat) (m : Nav), navIter f (k + 1) m = f (navIter f k m) := by
+    intro f k
+    induction k with
+    | zero => intro m; rfl
+    | succ k ih => intro m; rw [navIter, ih (f m)]; rfl
+  intro k
+  induction k with
+  | zero => intro e hk; omega
+  | succ k ih =>
+    intro e _ hkl he
+    rw [hsucc]
+    by_cases hk0 : k = 0
+    · subst hk0
+      have hne : ¬ hist.length = 0 := by omega
+      simp only [Nat.zero_add] at he
+      simp [navIter, navPrev, h0, hne, he]
+    · have hlt : hist.length - k < hist.length := by omega
+      rw [ih hist[hist.length - k] (by omega) (by omega) (List.getElem?_eq_getElem hlt)]
+      have h1 : ¬ hist.length - k = 0 := by omega
+      have h2 : hist.length - k - 1 = hist.length - (k + 1) := by omega
+      have h3 : ¬ hist.length - k = hist.length := by omega
+      simp [navPrev, h1, h2, he, h3]
+
+/-- **k Ups over a store with holes** (row ids after a duplicate was replaced or old rows trimmed):
+    from the line being typed, `k` Ups of the store machine (which the editor model refines,
+    `C07_prev_refines_store`) show the `k`-th newest EXISTING entry verbatim, cursor at its end, the
+    index being that row's, with the line being typed (text and cursor) saved. -/
+theorem C07_prev_iterate_rows {cfg : EdCfg} {r : RowStore} (v : RowsView cfg r) (n : Nav) (h0 : n.idx = r.len)
+    (k : Nat) (e : Text) (hk : 0 < k) (hkl : k ≤ cfg.hist.length) (he : cfg.hist[cfg.hist.length - k]? = some e) :
+    ∃ j, r.idx[cfg.hist.length - k]? = some j ∧
+      navIter (navPrevS (storeOf cfg)) k n = ⟨e, blen e, j, n.buf, n.pos⟩ := by
+  have hv : ValidIdx r n.idx := Or.inl h0
+  obtain ⟨h1, h2⟩ := C07_navIter_sim (absNav r) (fun m => ValidIdx r m.idx) _ _
+    (fun m hm => C07_rows_prev_sim v m hm) k n hv
+  have ha : (absNav r n).idx = cfg.hist.length := by
+    simp only [absNav]; rw [h0]; exact C07_posOf_len v.wf
+  rw [C07_prev_iterate cfg.hist (absNav r n) ha k e hk hkl he] at h1
+  generalize navIter (navPrevS (storeOf cfg)) k n = m at h1 h2
+  obtain ⟨m1, m2, m3, m4, m5⟩ := m
+  simp only [absNav, Nav.mk.injEq] at h1
+  obtain ⟨e1, e2, e3, e4, e5⟩ := h1
+  refine ⟨m3, ?_, by rw [e1, e2, e4, e5]⟩
+  rcases C07_valid_cases v.wf h2 with ⟨_, a2⟩ | ⟨_, _, a3⟩
+  · simp only at a2; omega
+  · simp only at a3; rw [e3] at a3; exact a3
+
+/-- **Coming back restores the line being typed, over a store with holes**: after any sequence of
+    Up / Down / first / last steps of the store machine mixed with arbitrary edits of recalled
+    entries, started on the line being typed `(b, p)`: the index is `len` or an existing row; whenever
+    it is back at `len` the line and cursor are `(b, p)` again, and while an entry is shown the saved
+    line is `(b, p)`. -/
+theorem C07_return_restores_rows {cfg : EdCfg} {r : RowStore} (v : RowsView cfg r) (n0 : Nav)
+    (ops : List NavOp) (h0 : n0.idx = r.len) :
+    let n := ops.foldl (navApplyS (storeOf cfg)) n0
+    ValidIdx r n.idx ∧ (n.idx = r.len → n.buf = n0.buf ∧ n.pos = n0.pos) ∧
+    (n.idx ≠ r.len → n.savedBuf = n0.buf ∧ n.savedPos = n0.pos) := by
+  intro n
+  obtain ⟨h1, h2⟩ := C07_rows_fold_sim v ops n0 (Or.inl h0)
+  have ha : (absNav r n0).idx = cfg.hist.length := by
+    simp only [absNav]; rw [h0]; exact C07_posOf_len v.wf
+  have hr := C07_return_restores cfg.hist (absNav r n0) ops ha
+  simp only at hr
+  rw [← h1] at hr
+  obtain ⟨_, r2, r3⟩ := hr
+  refine ⟨h2, ?_, ?_⟩
+  · intro hlen
+    have : (absNav r n).idx = cfg.hist.length := by
+      simp only [absNav]; rw [hlen]; exact C07_posOf_len v.wf
+    exact r2 this
+  · intro hne
+    rcases C07_valid_cases v.wf h2 with ⟨a1, _⟩ | ⟨_, a2, _⟩
+    · exact absurd a1 hne
+    · exact r3 a2
+
+/-- **first = enough Ups, on the store machine with holes**: as many Ups as there are existing rows
+    below the current index -/
+theorem C07_navFirstS_iterate_rows {cfg : EdCfg} {r : RowStore} (v : RowsView cfg r) (n : Nav)
+    (hv : ValidIdx r n.idx) :
+    navFirstS (storeOf cfg) n = navIter (navPrevS (storeOf cfg)) (posOf r n.idx) n := by
+  obtain ⟨f1, f2⟩ := C07_rows_first_sim v n hv
+  obtain ⟨i1, i2⟩ := C07_navIter_sim (absNav r) (fun m => ValidIdx r m.idx) _ _
+    (fun m hm => C07_rows_prev_sim v m hm) (posOf r n.idx) n hv
+  apply C07_absNav_inj v.wf f2 i2
+  have hle : posOf r n.idx ≤ cfg.hist.length := by
+    rcases C07_valid_cases v.wf hv with ⟨_, a2⟩ | ⟨_, a2, _⟩ <;> omega
+  rw [f1, i1, C07_navPrev_iterate cfg.hist (posOf r n.idx) (absNav r n) rfl hle]
+
+/-- **last = enough Downs, on the store machine with holes**: as many Downs as there are existing
+    rows at or above the current index -/
+theorem C07_navLastS_iterate_rows {cfg : EdCfg} {r : RowStore} (v : RowsView cfg r) (n : Nav)
+    (hv : ValidIdx r n.idx) :
+    navLastS (storeOf cfg) n = navIter (navNextS (storeOf cfg)) (cfg.hist.length - posOf r n.idx) n := by
+  obtain ⟨f1, f2⟩ := C07_rows_last_sim v n hv
+  obtain ⟨i1, i2⟩ := C07_navIter_sim (absNav r) (fun m => ValidIdx r m.idx) _ _
+    (fun m hm => C07_rows_next_sim v m hm) (cfg.hist.length - posOf r n.idx) n hv
+  apply C07_absNav_inj v.wf f2 i2
+  have hle : posOf r n.idx ≤ cfg.hist.length := by
+    rcases C07_valid_cases v.wf hv with ⟨_, a2⟩ | ⟨_, a2, _⟩ <;> omega
+  rw [f1, i1, C07_navNext_iterate cfg.hist _ (absNav r n) (by simp only [absNav]; omega)]
+
+/-! ### the editor model over the SQLite back end -/
+
+theorem C07_storeOK_view {cfg : EdCfg} {r : RowStore} (v : RowsView cfg r) : StoreOK (storeOf cfg) :=
+  C07_storeOK_rows cfg r v.rows v.wf.bound
+
+/-- **Up / C-p / k over SQLite history with holes**: from a navigable state on a valid index the
+    editor model never panics and, seen through positions, does exactly the declarative step of the
+    hole-free machine over the existing entries (`navPrev`); it stays on a valid index.  The three
+    theorems below are the same for Down, first and last. -/
+theorem C07_prev_refines_rows (S : Segmenter) (U : UData) {cfg : EdCfg} {r : RowStore} (v : RowsView cfg r)
+    (hnp : cfg.hinterPanicAt = none) (s : Ed) (h : NavOK cfg s) (hv : ValidIdx r s.histIdx) :
+    ∃ s', editHistoryNext S U cfg true s = .ok ((), s') ∧
+      absNav r (navOf s') = navPrev cfg.hist (absNav r (navOf s)) ∧ NavOK cfg s' ∧ ValidIdx r s'.histIdx := by
+  obtain ⟨s', h1, h2, h3⟩ := C07_prev_refines_store S U cfg hnp (C07_storeOK_view v) s h
+  obtain ⟨a1, a2⟩ := C07_rows_prev_sim v (navOf s) hv
+  rw [← h2] at a1 a2
+  exact ⟨s', h1, a1, h3, a2⟩
+
+theorem C07_next_refines_rows (S : Segmenter) (U : UData) {cfg : EdCfg} {r : RowStore} (v : RowsView cfg r)
+    (hnp : cfg.hinterPanicAt = none) (s : Ed) (h : NavOK cfg s) (hv : ValidIdx r s.histIdx) :
+    ∃ s', editHistoryNext S U cfg false s = .ok ((), s') ∧
+      absNav r (navOf s') = navNext cfg.hist (absNav r (navOf s)) ∧ NavOK cfg s' ∧ ValidIdx r s'.histIdx := by
+  obtain ⟨s', h1, h2, h3⟩ := C07_next_refines_store S U cfg hnp (C07_storeOK_view v) s h
+  obtain ⟨a1, a2⟩ := C07_rows_next_sim v (navOf s) hv
+  rw [← h2] at a1 a2
+  exact ⟨s', h1, a1, h3, a2⟩
+
+theorem C07_first_refines_rows (S : Segmenter) (U : UData) {cfg : EdCfg} {r : RowStore} (v : RowsView cfg r)
+    (hnp : cfg.hinterPanicAt = none) (s : Ed) (h : NavOK cfg s) (hv : ValidIdx r s.histIdx) :
+    ∃ s', editHistory S U cfg true s = .ok ((), s') ∧
+      absNav r (navOf s') = navFirst cfg.hist (absNav r (navOf s)) ∧ NavOK cfg s' ∧ ValidIdx r s'.histIdx := by
+  obtain ⟨s', h1, h2, h3⟩ := C07_first_refines_store S U cfg hnp (C07_storeOK_view v) s h
+  obtain ⟨a1, a2⟩ := C07_rows_first_sim v (navOf s) hv
+  rw [← h2] at a1 a2
+  exact ⟨s', h1, a1, h3, a2⟩
+
+theorem C07_last_refines_rows (S : Segmenter) (U : UData) {cfg : EdCfg} {r : RowStore} (v : RowsView cfg r)
+    (hnp : cfg.hinterPanicAt = none) (s : Ed) (h : NavOK cfg s) (hv : ValidIdx r s.histIdx) :
+    ∃ s', editHistory S U cfg false s = .ok ((), s') ∧
+      absNav r (navOf s') = navLast cfg.hist (absNav r (navOf s)) ∧ NavOK cfg s' ∧ ValidIdx r s'.histIdx := by
+  obtain ⟨s', h1, h2, h3⟩ := C07_last_refines_store S U cfg hnp s h
+  obtain ⟨a1, a2⟩ := C07_rows_last_sim v (navOf s) hv
+  rw [← h2] at a1 a2
+  exact ⟨s', h1, a1, h3, a2⟩
+
+/-- **M-< over SQLite history with holes** behaves like as many Ups (of the store machine the editor
+    refines) as there are existing rows below the current one; seen through positions that is
+    `navPrev` iterated, as for the default back end (`C07_first_is_iterated_prev`). -/
+theorem C07_first_is_iterated_prev_rows (S : Segmenter) (U : UData) {cfg : EdCfg} {r : RowStore}
+    (v : RowsView cfg r) (hnp : cfg.hinterPanicAt = none) (s : Ed) (h : NavOK cfg s)
+    (hv : ValidIdx r s.histIdx) :
+    ∃ s', editHistory S U cfg true s = .ok ((), s') ∧
+      navOf s' = navIter (navPrevS (storeOf cfg)) (posOf r s.histIdx) (navOf s) ∧
+      absNav r (navOf s') = navIter (navPrev cfg.hist) (posOf r s.histIdx) (absNav r (navOf s)) ∧
+      NavOK cfg s' ∧ ValidIdx r s'.histIdx := by
+  obtain ⟨s', h1, h2, h3⟩ := C07_first_refines_store S U cfg hnp (C07_storeOK_view v) s h
+  have hit := C07_navFirstS_iterate_rows v (navOf s) hv
+  obtain ⟨i1, i2⟩ := C07_navIter_sim (absNav r) (fun m => ValidIdx r m.idx) _ _
+    (fun m hm => C07_rows_prev_sim v m hm) (posOf r s.histIdx) (navOf s) hv
+  have e : navOf s' = navIter (navPrevS (storeOf cfg)) (posOf r s.histIdx) (navOf s) := by
+    rw [h2]; exact hit
+  refine ⟨s', h1, e, by rw [e]; exact i1, h3, ?_⟩
+  have : s'.histIdx = (navOf s').idx := rfl
+  rw [this, e]; exact i2
+
+/-- **M-> over SQLite history with holes** behaves like as many Downs as there are existing rows at
+    or above the current one. -/
+theorem C07_last_is_iterated_next_rows (S : Segmenter) (U : UData) {cfg : EdCfg} {r : RowStore}
+    (v : RowsView cfg r) (hnp : cfg.hinterPanicAt = none) (s : Ed) (h : NavOK cfg s)
+    (hv : ValidIdx r s.histIdx) :
+    ∃ s', editHistory S U cfg false s = .ok ((), s') ∧
+      navOf s' = navIter (navNextS (storeOf cfg)) (cfg.hist.length - posOf r s.histIdx) (navOf s) ∧
+      absNav r (navOf s') =
+        navIter (navNext cfg.hist) (cfg.hist.length - posOf r s.histIdx) (absNav r (navOf s)) ∧
+      NavOK cfg s' ∧ ValidIdx r s'.histIdx := by
+  obtain ⟨s', h1, h2, h3⟩ := C07_last_refines_store S U cfg hnp s h
+  have hit := C07_navLastS_iterate_rows v (navOf s) hv
+  obtain ⟨i1, i2⟩ := C07_navIter_sim (absNav r) (fun m => ValidIdx r m.idx) _ _
+    (fun m hm => C07_rows_next_sim v m hm) (cfg.hist.length - posOf r s.histIdx) (navOf s) hv
+  have e : navOf s' = navIter (navNextS (storeOf cfg)) (cfg.hist.length - posOf r s.histIdx) (navOf s) := by
+    rw [h2]; exact hit
+  refine ⟨s', h1, e, by rw [e]; exact i1, h3, ?_⟩
+  have : s'.histIdx = (navOf s').idx := rfl
+  rw [this, e]; exact i2
+
+/-- `k` repetitions of an editor command -/
+def edIter (m : EM Unit) : Nat → EM Unit
+  | 0 => pure ()
+  | k + 1 => m >>= fun _ => edIter m k
+
+/-- a command that refines a step of the navigation machine refines its iterations -/
+theorem C07_edIter_refines (m : EM Unit) (f : Nav → Nav) (Inv : Ed → Prop)
+    (step : ∀ s, Inv s → ∃ s', m s = .ok ((), s') ∧ navOf s' = f (navOf s) ∧ Inv s') :
+    ∀ (k : Nat) (s : Ed), Inv s →
+      ∃ s', edIter m k s = .ok ((), s') ∧ navOf s' = navIter f k (navOf s) ∧ Inv s' := by
+  intro k
+  induction k with
+  | zero => intro s hs; exact ⟨s, rfl, rfl, hs⟩
+  | succ k ih =>
+    intro s hs
+    obtain ⟨s1, h1, h2, h3⟩ := step s hs
+    obtain ⟨s2, g1, g2, g3⟩ := ih s1 h3
+    refine ⟨s2, ?_, by rw [g2, h2, navIter], g3⟩
+    show (m >>= fun _ => edIter m k) s = _
+    rw [EM.bind_apply, h1]
+    exact g1
+
+/-- **k Ups in the editor model over SQLite history with holes**: started on the line being typed
+    (`histIdx = len`), `k ≤ number of entries` PreviousHistory commands never panic and end showing the
+    `k`-th newest EXISTING entry verbatim, cursor at its end, `histIdx` that row's index, the line
+    being typed saved with its cursor. -/
+theorem C07_prev_iterate_rows_editor (S : Segmenter) (U : UData) {cfg : EdCfg} {r : RowStore}
+    (v : RowsView cfg r) (hnp : cfg.hinterPanicAt = none) (s : Ed) (h : NavOK cfg s) (h0 : s.histIdx = r.len)
+    (k : Nat) (e : Text) (hk : 0 < k) (hkl : k ≤ cfg.hist.length) (he : cfg.hist[cfg.hist.length - k]? = some e) :
+    ∃ s' j, edIter (editHistoryNext S U cfg true) k s = .ok ((), s') ∧
+      r.idx[cfg.hist.length - k]? = some j ∧
+      s'.line.buf = e ∧ s'.line.pos = blen e ∧ s'.histIdx = j ∧
+      s'.saved.buf = s.line.buf ∧ s'.saved.pos = s.line.pos := by
+  obtain ⟨s', h1, h2, _⟩ := C07_edIter_refines (editHistoryNext S U cfg true) (navPrevS (storeOf cfg)) (NavOK cfg)
+    (fun s hs => C07_prev_refines_store S U cfg hnp (C07_storeOK_view v) s hs) k s h
+  obtain ⟨j, hj, hn⟩ := C07_prev_iterate_rows v (navOf s) h0 k e hk hkl he
+  rw [hn] at h2
+  simp only [navOf, Nav.mk.injEq] at h2
+  obtain ⟨e1, e2, e3, e4, e5⟩ := h2
+  exact ⟨s', j, h1, hj, e1, e2, e3, e4, e5⟩
+
+/-- non-vacuity of the corollaries: the example store is a well-formed non-empty view, two Ups from
+    the line being typed cross no hole yet, the third one does -/
+example : RowsView C07_exCfg ⟨[0, 2, 3], 4⟩ :=
+  ⟨rfl, ⟨rfl, by decide, by decide, by decide⟩, by decide⟩
+
+/-- three Ups over the example store end on "1" (row index 0) with the line being typed saved: the
+    instance `k = 3` of `C07_prev_iterate_rows` -/
+example : navIter (navPrevS (storeOf C07_exCfg)) 3 ⟨['x'], 1, 4, [], 0⟩ = ⟨['1'], 1, 0, ['x'], 1⟩ := by decide
+
+/-- the hypotheses of `C07_rows_simulation_statement` are needed.  `RowsWF.tight` (`len` = last index
+    + 1): with one row at index 0 and `len = 3`, Down from that row asks for index 1, finds nothing
+    and steps onto the hole, where the hole-free machine returns to the line being typed. -/
+example :
+    let cfg : EdCfg := { vi := false, hist := [['a']], histRows := some ⟨[0], 3⟩ }
+    let n : Nav := ⟨['a'], 1, 0, ['x'], 1⟩
+    absNav ⟨[0], 3⟩ (navNextS (storeOf cfg) n) ≠ navNext cfg.hist (absNav ⟨[0], 3⟩ n) := by decide
+
+/-- … and `r.idx ≠ []`: a store without rows whose `len` is not 0 lets Up overwrite the saved line
+    (`backup`) although nothing is shown. -/
+example :
+    let cfg : EdCfg := { vi := false, hist := [], histRows := some ⟨[], 3⟩ }
+    let n : Nav := ⟨['x'], 1, 3, [], 0⟩
+    absNav ⟨[], 3⟩ (navPrevS (storeOf cfg) n) ≠ navPrev cfg.hist (absNav ⟨[], 3⟩ n) := by decide
+
+/-- the remaining case, an empty SQLite history (`len() = 0`): the four recall steps change nothing -/
+theorem C07_rows_empty (cfg : EdCfg) (r : RowStore) (n : Nav) (hr : cfg.histRows = some r) (h0 : r.len = 0) :
+    navPrevS (storeOf cfg) n = n ∧ navNextS (storeOf cfg) n = n ∧
+    navFirstS (storeOf cfg) n = n ∧ navLastS (storeOf cfg) n = n := by
+  have hL : (storeOf cfg).len = 0 := by rw [← h0]; exact Rows.histLen_rows cfg r hr
+  simp [navPrevS, navNextS, navFirstS, navLastS, hL]
